@@ -170,7 +170,7 @@ pub struct Searcher<'a> {
     regex_cache: HashMap<String, Regex>,
     found: u32,
     raw_output_buffer: Vec<HashMap<String, String>>,
-    partitioned_output_buffer: Rc<HashMap<Vec<String>, Vec<HashMap<String, String>>>>,
+    partitioned_output_buffer: Rc<Vec<(Vec<String>, Vec<HashMap<String, String>>)>>,
     output_buffer: TopN<Criteria<String>, String>,
     hgignore_filters: Vec<HgignoreFilter>,
     dockerignore_filters: Vec<DockerignoreFilter>,
@@ -207,7 +207,7 @@ impl<'a> Searcher<'a> {
             regex_cache: HashMap::new(),
             found: 0,
             raw_output_buffer: vec![],
-            partitioned_output_buffer: Rc::new(HashMap::new()),
+            partitioned_output_buffer: Rc::new(Vec::new()),
             output_buffer: if limit == 0 {
                 TopN::limitless()
             } else {
@@ -426,7 +426,10 @@ impl<'a> Searcher<'a> {
                     .map(|f| f.to_string())
                     .collect();
                 let buffer_partitions = self.partitioned_output_buffer.clone();
-                let buffer_partitions = buffer_partitions.iter().collect::<Vec<_>>();                 
+                let buffer_partitions = buffer_partitions
+                    .iter()
+                    .map(|(key, rows)| (key, rows))
+                    .collect::<Vec<_>>();
                 
                 let ordering_fields = self.query.ordering_fields.clone();
                 let directions = self.query.ordering_asc.clone();
@@ -1030,24 +1033,29 @@ impl<'a> Searcher<'a> {
         }
     }
 
-    fn partition_output_buffer(&self) -> HashMap<Vec<String>, Vec<HashMap<String, String>>> {
+    /// The buffered rows by group, the groups in the order in which their first row was found
+    /// (the order must not change from run to run: LIMIT cuts it).
+    fn partition_output_buffer(&self) -> Vec<(Vec<String>, Vec<HashMap<String, String>>)> {
         let group_fields: Vec<String> = self
             .query
             .grouping_fields
             .iter()
             .map(|ref expr| expr.to_string())
             .collect();
-        let mut result: HashMap<Vec<String>, Vec<HashMap<String, String>>> = HashMap::new();
+        let mut result: Vec<(Vec<String>, Vec<HashMap<String, String>>)> = vec![];
+        let mut positions: HashMap<Vec<String>, usize> = HashMap::new();
 
         self.raw_output_buffer.iter().for_each(|item| {
             let key: Vec<String> = group_fields
                 .iter()
                 .map(|f| item.get(f).unwrap_or(&String::new()).clone())
                 .collect();
-            if result.contains_key(&key) {
-                result.get_mut(&key).unwrap().push(item.clone());
-            } else {
-                result.insert(key, vec![item.clone()]);
+            match positions.get(&key) {
+                Some(&position) => result[position].1.push(item.clone()),
+                None => {
+                    positions.insert(key.clone(), result.len());
+                    result.push((key, vec![item.clone()]));
+                }
             }
         });
 
